@@ -15,7 +15,7 @@ RULE = ("VSIX: OPC packages built part by part (extension.vsixmanifest + parts w
         "Reference, the content type table read back by ContentTypes.Parse, relic's verdict on its own output), resign (signed, "
         "rewritten with archive/zip, signed again with the same or another key / hash / flag), verify (part-level edits of really "
         "signed packages: byte flips / appends / removals / renames of payload parts, shadowing duplicates before and after, added "
-        "parts, content types changed / removed / garbage, every relationship part edited / retargeted / removed / given a second "
+        "payload parts (rejected since the repairs of FV3 / FV4), parts added under names relic takes for signature metadata, content types changed / removed / garbage, every relationship part edited / retargeted / removed / given a second "
         "origin, origin part non-empty, signature part flipped / emptied / comment-only / foreign / with an edited DigestValue / "
         "swapped with the signature of another key or another package, detached certificates flipped / removed / replaced, "
         "certificate relationships added to a package with embedded certificates; and Objects crafted here and signed with the "
@@ -31,9 +31,9 @@ TRUSTED = ["Relic.Model.Vsix is hand-written from signers/vsix/{mangle,contentty
            "runner (stale ops are refused); digests on the op line are recomputed here with hashlib",
            "the ZIP layer (zipslicer.Mangle / NewFile / MakePatch, archive/zip) is the black box `kept members in order, then the new "
            "members in call order` (Relic.Props.C03.zip_rewrite_preserves_members; ZIPRW ops)"]
-ASSUMPTIONS = ["VSIX sign-then-verify is claimed for packages and configurations passing the decidable conditions cfgOk (the signer's own part "
-               "names are distinct, not payload names and survive Append/Find: true for every base32 name calcFileName returns) and refsOk "
-               "(every part name survives the Reference-URI round trip); other inputs are exercised and listed as findings",
+ASSUMPTIONS = ["VSIX sign-then-verify is claimed for every package relic signs, for configurations passing the decidable condition cfgOk (the signer's "
+               "own part names are distinct, not payload names and survive Append/Find: true for every base32 name calcFileName returns); the "
+               "model describes the repaired code (fx = true: FV1, FV3, FV4 and the two panics), the code before is kept as fx = false for the witnesses",
                "generated part names avoid carriage returns and `]]>` (listed findings F16-cr-write / F16-attr-cdata-end of the XML layer)",
                "re-signing is exercised on the first result rewritten by archive/zip: relic cannot re-read the 24-byte descriptors of the "
                "empty members it writes (listed finding F7a)",
@@ -182,6 +182,8 @@ def predicate(prop, op, il, mres, tag):
     if il.startswith(("crash", "not-run", "stale-op", "bad-op")) and kind != "path" and mres != "bad-op":
         return ("Relic.Props.%s (vsix)" % prop, mres[:80], "implementation runner: " + il[:120])
     kv = _kv(tag)
+    if kind in ("sign", "resign") and il.startswith("err ") and il.endswith(" dirty"):
+        return ("Relic.Props.C03.vsix_refusal_is_clean", "input untouched, nothing written", "refused signing left traces: " + il)
     if kind == "resign" and il.startswith("second-") and prop in ("C08", "C01"):
         return ("Relic.Props.C08.vsix_resign_total_full", "second signing succeeds", "relic signed the package once, the second signing of the result failed: " + il[:120])
     if kind in ("sign", "resign") and il.startswith("ok "):
@@ -190,11 +192,9 @@ def predicate(prop, op, il, mres, tag):
         inp = _parts(f[-1])
         out = [(_b(x.split(":")[0]), x.split(":")[1]) for x in a["parts"].split(";")]
         v = a.get("V", "")
-        if prop in ("C01", "C08") and kv.get("wf") == "1" and not v.startswith("ok:" + hname + ":"):
-            return ("Relic.Props.C01.vsix_sign_then_verify", "V=ok:" + hname, "relic's verifier rejects relic's own VSIX signature of a well-formed package: " + v)
-        if prop == "C01" and kv.get("wf") == "0" and kv.get("cfg") == "1" and not v.startswith("ok:"):
-            return ("Relic.Props.C01.vsix_uri_roundtrip_gap (part name does not survive the Reference URI)", "refused, or verifiable output",
-                    "signing succeeded but relic's own verifier rejects the result (%s): a part name is not what path.Join('./'+URI) cut at '?' returns" % v)
+        if prop in ("C01", "C08", "C03") and not v.startswith("ok:" + hname + ":"):
+            # full strength since the repair of FV1: whatever relic signs, relic verifies
+            return ("Relic.Props.C01.vsix_sign_then_verify", "V=ok:" + hname, "relic's verifier rejects relic's own VSIX signature: " + v)
         if prop in ("C03", "C08"):
             # every part that is not signature machinery is byte-identical and in order
             want = [(n, hashlib.sha256(d).hexdigest()) for n, d in inp if not _signature_machinery(n)]
@@ -217,9 +217,11 @@ def predicate(prop, op, il, mres, tag):
             return ("Relic.Props.%s (vsix digest table)" % prop, "digests of the parts", "generator handed the model a wrong digest / base64 table")
         label = f[4]
         if prop == "C02" and label.startswith("p-") and il.startswith("ok "):
-            return ("Relic.Props.C02.vsix_tamper_evident_partial", "rejected", "edit '%s' of a signed package is accepted by relic's verifier" % label)
+            thm = {"p-add-part": "vsix_unlisted_part_rejected", "p-shadow-before": "vsix_shadowed_member_rejected",
+                   "p-shadow-after": "vsix_shadowed_member_rejected"}.get(label, "vsix_tamper_evident")
+            return ("Relic.Props.C02." + thm, "rejected", "edit '%s' of a signed package is accepted by relic's verifier" % label)
         if prop == "C02" and label.startswith("g-") and il.startswith("ok "):
-            gap = {"g-add-part": "vsix_unlisted_part_accepted", "g-shadow-before": "vsix_shadowed_member_accepted"}.get(label, "vsix_content_types_unchecked")
+            gap = {"g-add-meta": "vsix_unlisted_metadata_part_accepted"}.get(label, "vsix_content_types_unchecked")
             return ("Relic.Props.C02." + gap, "rejected", "edit '%s' of a signed package is accepted by relic's verifier" % label)
     return None
 
@@ -243,8 +245,8 @@ def matches_known(k, op, il, mres, tag):
         outn = [_b(x.split(":")[0]) for x in a["parts"].split(";")]
         lost = [n for n, _ in _parts(f[-1]) if not _signature_machinery(n) and n not in outn]
         return bool(lost) and all(n.endswith((b".rels", b".psdor", b".psdsxs")) for n in lost)
-    if ident.get("vsix") in ("unlisted-part", "shadowed-member", "content-types"):
-        labels = {"unlisted-part": ("g-add-part",), "shadowed-member": ("g-shadow-before",),
+    if ident.get("vsix") in ("unlisted-metadata-part", "content-types"):
+        labels = {"unlisted-metadata-part": ("g-add-meta",),
                   "content-types": ("g-ctypes-changed", "g-ctypes-removed", "g-ctypes-garbage")}[ident["vsix"]]
         return kind == "verify" and f[4] in labels and il.startswith("ok ")
     return False
